@@ -210,6 +210,8 @@ def start_kernel(sim, cfg=None):
     K = Kernel(sim, cfg or {})
     sim.kernel = K
     _AF_PID.clear()
+    if 'a2l' in _state:
+        _state['a2l'].d.clear()
     return K
 
 
@@ -508,7 +510,9 @@ class SimPopen:
                 proc.pyobj = obj
                 proc.phase = 'unpickled'
                 _kill_point(proc, me2)
-                run_after_forkers(proc.pid)
+                # NB: no after-fork hooks here. CPython's SpawnProcess._after_fork is a no-op ("process is spawned, nothing
+                # to do"), so util._run_after_forkers() never runs in a spawned child (checked against the real system:
+                # conformance/real_c13_refcounts.py).
                 try:
                     try:
                         proc.phase = 'running'
@@ -758,11 +762,45 @@ def install_process():
     mpp.BaseProcess.__hash__ = lambda self: getattr(self, '_sim_hash', 0)
 
 
+class PerProcessDict:
+    """Stands for a class-/module-level dict that is per-process state in reality (each spawned interpreter has its own):
+    keys are transparently qualified by the simulated pid."""
+
+    def __init__(self):
+        self.d = {}
+
+    def get(self, k, default=None):
+        return self.d.get((os.getpid(), k), default)
+
+    def __getitem__(self, k):
+        return self.d[(os.getpid(), k)]
+
+    def __setitem__(self, k, v):
+        self.d[(os.getpid(), k)] = v
+
+    def __contains__(self, k):
+        return (os.getpid(), k) in self.d
+
+    def pop(self, k, *a):
+        return self.d.pop((os.getpid(), k), *a)
+
+    def __delitem__(self, k):
+        del self.d[(os.getpid(), k)]
+
+    def clear(self):
+        pid = os.getpid()
+        for k in [k for k in self.d if k[0] == pid]:
+            del self.d[k]
+
+
 def install():
     install_process()
     install_connection()
     install_semlock()
     import multiprocessing.managers as mm
+    # BaseProxy._address_to_local maps a manager address to (thread-local connection holder, set of proxy ids): per process
+    mm.BaseProxy._address_to_local = PerProcessDict()
+    _state['a2l'] = mm.BaseProxy._address_to_local
     shim = type(sys)('signal_shim')
     shim.__dict__.update(signal.__dict__)
     shim.signal = lambda *a, **k: None
